@@ -1096,6 +1096,24 @@ func init() {
 		}
 		return r + " inner=" + state
 	})
+	// c.atomenv <path> <i> <dmap> <keyhex> <op1> <arg1> -- <adv_ms> <path2> <i2> <op2> <arg2>
+	// The first operation has taken its timestamp and is about to take the per-key lock (verifhook.At("atomic.env"));
+	// there the clock advances by adv_ms and the second operation runs to completion; then the first one goes on.
+	// The two are serial - second, then first - but the first one carries the OLDER timestamp.
+	// Reply: "<result1> inner=<ran:result2 | ->"
+	register("c.atomenv", clusterOp(func(m *member, path, name string, a []string) string {
+		key, op1, arg1, rest := a[0], a[1], a[2], a[4:]
+		state := "-"
+		verifhook.SetPoint("atomic.env", func() {
+			verifhook.SetPoint("atomic.env", nil)
+			verifhook.SetClock(verifhook.Clock() + i64(rest[0])*1000000)
+			m2 := cl.members[atoi(rest[2])]
+			state = "ran:" + atomOp(rest[3])(m2, rest[1], name, []string{key, rest[4]})
+		})
+		r := atomOp(op1)(m, path, name, []string{key, arg1})
+		verifhook.SetPoint("atomic.env", nil)
+		return r + " inner=" + state
+	}))
 	register("c.atomx", atomx)
 	register("c.atomxf", atomx) // the same with IncrByFloat operations (not mirrored by the model)
 	// c.atomrace <dmap> <keyhex> <clients> <iters> <incr|getput>: real concurrency through all members and client kinds
@@ -1532,6 +1550,20 @@ func init() {
 	}))
 	register("c.commands", func(a []string) string {
 		return strings.Join(cl.members[atoi(a[0])].db.VerifInternals().Server.VerifCommands(), ",")
+	})
+	// c.rawerr <i> <arg hex>... : any RESP command on a fresh connection; the class of its reply (ok, cq, nf, syntax, ...)
+	register("c.rawerr", func(a []string) string {
+		m := cl.members[atoi(a[0])]
+		var args []interface{}
+		for _, x := range a[1:] {
+			args = append(args, unhx(x))
+		}
+		ctx, cancel := context.WithTimeout(ctxBg, 5*time.Second)
+		defer cancel()
+		rc := redis.NewClient(&redis.Options{Addr: m.addr, MaxRetries: -1, DialTimeout: 2 * time.Second, ReadTimeout: 4 * time.Second})
+		defer rc.Close()
+		_, err := rc.Do(ctx, args...).Result()
+		return errClass(err)
 	})
 	// rawcmd <i> <arg hex>... : any RESP command; reply class
 	register("c.rawcmd", func(a []string) string {
